@@ -21,6 +21,7 @@ head = (f"{n} confirmed seeded changes; {sum(1 for r in rows[2:] if '**missed**'
         f"Behaviour-preserving refactorings that must stay silent: {benign}.\n\n")
 p = os.path.join(V, "DESIGN.md")
 s = open(p).read()
-s = re.sub(r"<!-- SEED-TABLE-BEGIN -->.*<!-- SEED-TABLE-END -->", "<!-- SEED-TABLE-BEGIN -->\n" + head + "\n".join(rows) + "\n<!-- SEED-TABLE-END -->", s, flags=re.S)
+_new = "<!-- SEED-TABLE-BEGIN -->\n" + head + "\n".join(rows) + "\n<!-- SEED-TABLE-END -->"
+s = re.sub(r"<!-- SEED-TABLE-BEGIN -->.*<!-- SEED-TABLE-END -->", lambda m: _new, s, flags=re.S)
 open(p, "w").write(s)
 print(n, "seeds;", own, "caught by own property")
